@@ -33,7 +33,7 @@ func (c *slowCloseConn) Close() error {
 // (its Wait returns once, within the watchdog), tags on the wire must be unique, Close must
 // return. Run natively and (by bin/check) under the race detector.
 func runC13(h *H) {
-	h.Rule("one imapclient.Client shared by 2..8 goroutines issuing NOOP, STATUS, LIST (streamed), FETCH with a body literal (streamed), SEARCH (with non-ASCII criteria, so that the enabled set is consulted), APPEND (literal-bearing), ENABLE, concurrently with a goroutine calling State/Caps/Mailbox and reading the fields of the returned mailbox snapshot while unilateral EXISTS/EXPUNGE/FLAGS arrive, and with the connection ended at a random moment by the server (close) or by the caller (Client.Close); in half of the runs the connection's Close takes 1-4 ms (30 ms when combined with the stop-after-error mode), so that commands are submitted while the client is tearing down; in half of the runs every goroutine stops after its first failed command and one more attempt (so that no later failing write rescues a command orphaned by the teardown). Oracle: every Wait returns exactly once within the watchdog, with an error if the command had not completed; tags received by the server are pairwise distinct; Close returns; the same run under the Go race detector must report no race whose stack involves imapclient or internal/imapwire. Non-trivial = the run ended the connection while commands were in flight; distinct by seed.")
+	h.Rule("one imapclient.Client shared by 2..8 goroutines issuing NOOP, STATUS, LIST (streamed), FETCH with a body literal (streamed), SEARCH (with non-ASCII criteria, so that the enabled set is consulted), APPEND (literal-bearing), ENABLE, IDLE (every third one refused by the server), UNAUTHENTICATE followed by LOGIN, concurrently with a goroutine calling State/Caps/Mailbox and reading the fields of the returned mailbox snapshot while unilateral EXISTS/EXPUNGE/FLAGS arrive, and with the connection ended at a random moment by the server (close) or by the caller (Client.Close); in half of the runs the connection's Close takes 1-4 ms (30 ms when combined with the stop-after-error mode), so that commands are submitted while the client is tearing down; in half of the runs every goroutine stops after its first failed command and one more attempt (so that no later failing write rescues a command orphaned by the teardown). Oracle: every Wait returns exactly once within the watchdog, with an error if the command had not completed; tags received by the server are pairwise distinct; Close returns; the same run under the Go race detector must report no race whose stack involves imapclient or internal/imapwire. Non-trivial = the run ended the connection while commands were in flight; distinct by seed.")
 	// targeted: one command submitted while the client is tearing down after the server went
 	// away, with a slow connection Close and nobody else around to fail a write later
 	for k := 0; k < h.Pick(20, 100); k++ {
@@ -92,12 +92,13 @@ func runC13(h *H) {
 		rng := newRand(seed)
 		desc := map[string]interface{}{"seed": seed}
 		h.InFlight(desc)
-		peer := newPeer("* OK [CAPABILITY IMAP4rev1 ENABLE UTF8=ACCEPT IDLE] ready\r\n")
+		peer := newPeer("* OK [CAPABILITY IMAP4rev1 ENABLE UTF8=ACCEPT IDLE UNAUTHENTICATE] ready\r\n")
 		var idleTag string
+		idles := 0
 		peer.OnCommand = func(p *scriptedPeer, c *peerCmd) {
 			switch {
 			case c.Name == "CAPABILITY":
-				p.Send("* CAPABILITY IMAP4rev1 ENABLE UTF8=ACCEPT IDLE\r\n" + c.Tag + " OK done\r\n")
+				p.Send("* CAPABILITY IMAP4rev1 ENABLE UTF8=ACCEPT IDLE UNAUTHENTICATE\r\n" + c.Tag + " OK done\r\n")
 			case c.Name == "ENABLE":
 				p.Send("* ENABLED UTF8=ACCEPT\r\n" + c.Tag + " OK done\r\n")
 			case c.Name == "LIST":
@@ -114,8 +115,16 @@ func runC13(h *H) {
 			case c.Name == "SELECT":
 				p.Send("* 5 EXISTS\r\n* FLAGS (\\Seen \\Deleted)\r\n* OK [PERMANENTFLAGS (\\Seen \\*)] perm\r\n* OK [UIDVALIDITY 9] v\r\n" + c.Tag + " OK [READ-WRITE] selected\r\n")
 			case c.Name == "IDLE":
+				idles++
+				if idles%3 == 0 {
+					// the server is not willing to idle right now
+					p.Send(c.Tag + " NO not now\r\n")
+					return
+				}
 				idleTag = c.Tag
 				p.Send("+ idling\r\n")
+			case c.Name == "LOGIN" || c.Name == "UNAUTHENTICATE":
+				p.Send(c.Tag + " OK [CAPABILITY IMAP4rev1 ENABLE UTF8=ACCEPT IDLE UNAUTHENTICATE] done\r\n")
 			case c.Tag == "DONE":
 				p.Send(idleTag + " OK done\r\n")
 			default:
@@ -163,7 +172,7 @@ func runC13(h *H) {
 		kinds := make([][]int, n)
 		for g := 0; g < n; g++ {
 			for k := 0; k < perG; k++ {
-				kinds[g] = append(kinds[g], rng.Intn(7))
+				kinds[g] = append(kinds[g], rng.Intn(9))
 			}
 		}
 		for g := 0; g < n; g++ {
@@ -204,9 +213,30 @@ func runC13(h *H) {
 							_, err := ac.Wait()
 							return err
 						}
-					default:
+					case 6:
 						c := client.Enable(imap.CapUTF8Accept)
 						wait = func() error { _, err := c.Wait(); return err }
+					case 7:
+						// IDLE, which the server sometimes refuses; whatever happens the client
+						// must stay usable for everybody else
+						wait = func() error {
+							ic, err := client.Idle()
+							if err != nil {
+								return nil
+							}
+							time.Sleep(200 * time.Microsecond)
+							ic.Close()
+							return ic.Wait()
+						}
+					default:
+						// back to the not-authenticated state and in again: command tags must
+						// stay unique over the whole connection
+						wait = func() error {
+							if err := client.Unauthenticate().Wait(); err != nil {
+								return err
+							}
+							return client.Login("u", "p").Wait()
+						}
 					}
 					var werr error
 					ok := withTimeout(5*time.Second, func() { werr = wait() })
